@@ -77,7 +77,7 @@ def model_check(ctx, known):
         runs += [
             ("2thr-ent3-depth1", (2, 3, 1, 1, 6), s4, [0, 1, 255], ["valid", "zero"], False),
             ("2thr-ent2-all-depth2", (2, 2, 1, 2, 6), ALL_S, ALL_F, ALL_FORMS, False),
-            ("1thr-ent3-all", (1, 3, 1, 2, 6), ALL_S, ALL_F, ALL_FORMS, False),
+            ("1thr-ent3-all-samplers", (1, 3, 1, 1, 6), ALL_S, [0, 1, 255], ["valid", "zero"], False),
             ("2thr-ent3-depth2", (2, 3, 1, 2, 6), s4, [0, 1, 255], ["valid", "zero"], False),
             ("2thr-ent3-2remotes", (2, 3, 2, 1, 6), s5, [0, 3], ["valid", "nospan"], False),
             ("1thr-ent4", (1, 4, 1, 2, 7), ["off", "pb_on", "c_RO_2"], [1, 255], ["valid", "zero"], False),
@@ -86,7 +86,9 @@ def model_check(ctx, known):
     jobs = []
     for fam, dev in fams:
         for (name, shape, ss, fl, fo, cov) in runs:
-            if fam != "ideal" and (not thorough) and name != "2thr-ent2-all-samplers":
+            if fam != "ideal" and name not in (("2thr-ent2-all-samplers",) if not thorough else
+                                               ("1thr-ent3-depth2", "2thr-ent2-all-samplers", "2thr-ent3-depth1",
+                                                "2thr-ent2-all-depth2")):
                 continue
             c = _cfg(ctx, "mc-%s-%s.cfg" % (fam, name), shape, ss, fl, fo, dev=dev)
             jobs.append((fam, name, c, cov and fam == "ideal"))
@@ -148,8 +150,8 @@ def generate(ctx, known):
             jobs.append((fam, "all-depth2", c, None))
         # (b) one behaviour per distinct abstract state, 2 threads
         if thorough or fam == "ideal":
-            shape = (2, 3, 1, 2, 4) if thorough else (2, 3, 1, 1, 3)
-            fl, fo = (ALL_F, ALL_FORMS) if thorough else ([0, 1, 255], ["valid", "zero", "nospan"])
+            shape = (2, 3, 1, 1, 4) if thorough else (2, 3, 1, 1, 3)
+            fl, fo = ([0, 1, 3, 255], ["valid", "zero", "nospan"]) if thorough else ([0, 1, 255], ["valid", "zero", "nospan"])
             c = _cfg(ctx, "g2-%s.cfg" % fam, shape, ALL_S, fl, fo, dev=dev, hist=True, view="ViewState", invs="EmitAll",
                      props="")
             jobs.append((fam, "state-cover", c, None))
@@ -383,8 +385,8 @@ def run(ctx):
     probs, summ = replay_behs(ctx, exe, behs, "counter", "counter")
     t1 = classify(ctx, behs, probs, "counter")
     nornd = [b for b in behs if not any(s.get("s") == "rmid" for s in b["steps"])]
-    if ctx.tier == "quick":
-        nornd = [b for b in nornd if b["src"] not in ("all-depth2", "state-cover") or b["id"] % 3 == ctx.seed % 3]
+    k = 3 if ctx.tier == "quick" else 2     # the random generator replays a sample of the two big covers
+    nornd = [b for b in nornd if b["src"] not in ("all-depth2", "state-cover") or b["id"] % k == ctx.seed % k]
     probs2, summ2 = replay_behs(ctx, exe, nornd, "random", "random")
     t2 = classify(ctx, nornd, probs2, "random")
     single = [b for b in behs if b["src"] in ("all-depth2",)][:: 40 if ctx.tier == "quick" else 8]
